@@ -27,12 +27,25 @@ type chunkReader struct {
 	// eofWithData: the last chunk is returned together with io.EOF, as the io.Reader contract
 	// allows (HTTP bodies, decompressors, iotest.DataErrReader do this)
 	eofWithData bool
+	// gaps > 0: the source is a live feed that pauses: between chunks it reports `gaps`
+	// consecutive transient end-of-file results (tolerated when the configuration says so)
+	gaps    int
+	pending int
+	served  bool
 }
 
 func (c *chunkReader) Read(p []byte) (int, error) {
 	if len(c.data) == 0 {
 		return 0, io.EOF
 	}
+	if c.gaps > 0 && c.served && (c.k == 2 || (c.gaps == 1 && c.k%5 == 0)) {
+		if c.pending < c.gaps {
+			c.pending++
+			return 0, io.EOF
+		}
+		c.pending = 0
+	}
+	c.served = true
 	n := c.chunks[c.k%len(c.chunks)]
 	c.k++
 	if n > len(p) {
@@ -125,8 +138,15 @@ func runPipe(t []string) *Obs {
 			}
 		}()
 		var cfg jsonconfig.Config
+		gaps := 0
+		if kv["gaps"] != "" {
+			// a live feed with pauses: the handler is configured to ride out end-of-file for 400 ms, polling every ms
+			// (a second consecutive end-of-file makes Handle sleep for the whole timeout, so double gaps are placed once)
+			gaps = atoi(kv["gaps"])
+			cfg.TimeoutOnEOFMilliSeconds, cfg.WaitTimeOnEOFMilliseconds = 400, 1
+		}
 		ac := appcore.New(&cfg, channels)
-		ac.HandleMessagesUntilEOF(start, bufio.NewReader(&chunkReader{data: append([]byte{}, bs...), chunks: chunks, pause: time.Millisecond, eofWithData: kv["eof"] == "with-data"}))
+		ac.HandleMessagesUntilEOF(start, bufio.NewReader(&chunkReader{data: append([]byte{}, bs...), chunks: chunks, pause: time.Millisecond, eofWithData: kv["eof"] == "with-data", gaps: gaps}))
 		done <- ""
 	}()
 	select {
@@ -257,7 +277,13 @@ func init() {
 					class = "with-nil-consumer"
 				}
 				eof := "bare"
-				if r.Intn(3) == 0 {
+				if r.Intn(12) == 0 {
+					// a paused live feed: one or two transient EOF results between chunks, tolerated by the configuration
+					eof = fmt.Sprintf("bare gaps=%d", 1+r.Intn(2))
+					if class == "mixed" {
+						class = "transient-eof-between-chunks"
+					}
+				} else if r.Intn(3) == 0 {
 					// the source returns its last bytes together with io.EOF
 					eof = "with-data"
 					if class == "mixed" {
